@@ -539,6 +539,29 @@ func c15Other(name string, n, pat int) (viol string) {
 			x.UnmarshalBencode([]byte("li" + strconv.Itoa(n) + "e" + string(benc) + "e"))
 			x.UnmarshalBencode([]byte("li" + strconv.Itoa(n) + "ee"))
 			x.UnmarshalBencode([]byte("le"))
+			if n == 0 && pat == 0 {
+				// every list of 0..3 elements over {int, string, list, dict}, bare and inside a message
+				elems := []string{"i201e", "3:abc", "l1:xe", "d1:ki1ee"}
+				var shapes []string
+				var gen func(prefix string, depth int)
+				gen = func(prefix string, depth int) {
+					shapes = append(shapes, "l"+prefix+"e")
+					if depth == 3 {
+						return
+					}
+					for _, e := range elems {
+						gen(prefix+e, depth+1)
+					}
+				}
+				gen("", 0)
+				shapes = append(shapes, elems...)
+				for _, sh := range shapes {
+					var e krpc.Error
+					e.UnmarshalBencode([]byte(sh))
+					var m krpc.Msg
+					bencode.Unmarshal([]byte("d1:e"+sh+"1:t2:aa1:y1:ee"), &m)
+				}
+			}
 		case "Compact.UnmarshalBencode":
 			var a krpc.CompactIPv4NodeAddrs
 			var c krpc.CompactIPv6NodeAddrs
